@@ -28,10 +28,19 @@ def one(args):
             if e != "gtirb":
                 os.symlink("/repo/python/" + e, tmp + "/python/" + e)
         shutil.copytree("/repo/python/gtirb", tmp + "/python/gtirb")
+        # only the hunks for python/gtirb are applied (the rest of the tree is symlinked)
+        keep, cur, use = [], [], False
         for line in open(patch):
-            if line.startswith("+++ ") and "python/gtirb/" not in line:
-                return patch, [("-", "PATCH", "touches a file outside python/gtirb", line.strip(), "")]
-        r = subprocess.run(["patch", "-s", "-p1", "-d", tmp, "-i", os.path.abspath(patch)],
+            if line.startswith("diff --git "):
+                if use:
+                    keep.extend(cur)
+                cur, use = [], ("python/gtirb/" in line)
+            cur.append(line)
+        if use or not any(l.startswith("diff --git ") for l in keep + cur):
+            keep.extend(cur)
+        fp = tmp + "/the.patch"
+        open(fp, "w").write("".join(keep))
+        r = subprocess.run(["patch", "-s", "-p1", "-d", tmp, "-i", fp],
                            capture_output=True, text=True)
         if r.returncode != 0:
             return patch, [("-", "PATCH", "does not apply", r.stdout + r.stderr, "")]
@@ -53,7 +62,10 @@ def one(args):
                 v = [x for x in chk.violations() if (p, x.rule, x.construct) not in known]
                 for x in v:
                     out.append((p, x.rule, x.construct, x.message, x.loc.replace(tmp + "/", "")))
-                if not v and chk.floor_failures:
+                if not v and chk.undecided():
+                    u = chk.undecided()[0]
+                    out.append((p, "EXIT2", "undecided", "%s %s: %s" % (u.rule, u.construct, u.message), u.loc.replace(tmp + "/", "")))
+                elif not v and chk.floor_failures:
                     out.append((p, "EXIT2", "floor", "; ".join(chk.floor_failures), ""))
             except AnalysisError as e:
                 out.append((p, "EXIT2", "analysis", str(e), ""))
